@@ -35,7 +35,22 @@ def c08(res):
                     ["MC_SendCoreFull", "MC_RecvCoreFull", "MC_SendBigWShort", "MC_RecvBigW", "MC_SendBigWFull"])
 
 
-CHECKS = {"C01": c01, "C02": c02, "C04": c04, "C07": c07, "C08": c08}
+def c13(res):
+    worker_families(res, ["MC_RecvCoreQuick", "MC_RecvDevfull"], ["MC_RecvCoreFull", "MC_RecvDevfull"])
+
+
+def c15(res):
+    W.model_check(res, "MC_SendWrapSmall")
+    W.model_check(res, "MC_RecvWrapSmall")
+    worker_families(res, ["MC_SendWrapReal", "MC_RecvWrapReal"],
+                    ["MC_SendWrapRealDeep", "MC_RecvWrapRealDeep", "MC_SendBigWFull"])
+
+
+def c16(res):
+    worker_families(res, ["MC_SendDup", "MC_RecvDup"], ["MC_SendDup", "MC_RecvDup"])
+
+
+CHECKS = {"C01": c01, "C02": c02, "C04": c04, "C07": c07, "C08": c08, "C13": c13, "C15": c15, "C16": c16}
 
 
 def setup():
